@@ -211,13 +211,15 @@ def decode(sensor, b: bytes):
 
 
 def same(a, b) -> bool:
-    """value equality used by the checks: exact, except floats whose raw integer exceeds 2^53 (rel 1e-12); NaN==NaN."""
+    """value equality used by the checks: exact for ints/strings/None, floats up to 4e-15 relative (one or two units in the
+    last place: 8-byte counters beyond 2^53 round differently in float(n)/100 and n/100); NaN==NaN."""
     if isinstance(a, float) and isinstance(b, (float, int)) or isinstance(b, float) and isinstance(a, (float, int)):
         if a != a and b != b:
             return True
         if a == b:
             return True
-        if abs(a) > 2 ** 50 and abs(a - b) <= 1e-12 * abs(a):
+        # 8-byte energies beyond 2^53 raw counts: float(n)/100 and n/100 may differ in the last place
+        if abs(a - b) <= 1e-15 * max(abs(a), abs(b)) * 4:
             return True
         return False
     return type(a) == type(b) and a == b or (a is None and b is None) or \
